@@ -63,7 +63,9 @@ RUNNER_ASSUME = ["user function bodies are deterministic functions of the call k
                  "InvocationContext / RecursiveContext / LocalContext are modelled as immutable records; update_recursive is a functional field update (assumed model of the __dict__-based classes)",
                  "the thread-local call stack is a per-thread singleton; no other thread interleaves (C09 is not applicable)"]
 
-prop("C02", modules=["runner"], functions=[MRL, "runner:process_existing_memento"], split={MRL: 12},
+EXC = "exception:MementoException."
+prop("C02", modules=["runner"], functions=[MRL, "runner:process_existing_memento", EXC + "__init__", EXC + "from_exception", EXC + "to_exception"], split={MRL: 12},
+     function_modules={EXC + "__init__": ["excname"], EXC + "from_exception": ["excname"], EXC + "to_exception": ["excname"]},
      design_ref="DESIGN.md section 6, C02",
      trusted=["interface contract of the abstract StorageBackend (dictionary view) -- refined by StorageBackendBase under C05",
               "MementoException.from_exception / to_exception round trip and ResultType.from_object are assumed contracts here"],
